@@ -104,7 +104,7 @@ PROPS["C10"] = {
     "groups": [
         {"id": "arc",
          "quick": ["c10::c10_pool_k2", "c10::c10_pool_k3", "c10::c10_from_value_last_handle_drops", "c10::c10_empty_is_inert",
-                   "c10::c10_foreign_functions_used", "c10::c10_negative_twin"],
+                   "c10::c10_foreign_functions_used", "c16::c16_carc_view_overaligned_opaque_clone", "c10::c10_negative_twin"],
          "thorough_adds": ["c10::c10_pool_k4"],
          "timeout": 3000},
     ],
@@ -240,11 +240,33 @@ def _c16_pre(tier):
         raise SystemExit(3)
 
 
+def _c16_extra(prop, tier):
+    """The C side of 'box and arc: release': the *_drop helpers emitted by the real cglue-bindgen (with the ctx_arc_drop /
+    cont_box_drop snippets they call) release the instance once, the context once, through the object's own pointers,
+    null-guarded, and the instance BEFORE the context - CBMC on the emitted C text (C17's machinery), gcc as replay."""
+    import sys as _sys
+    _sys.path.insert(0, os.path.join(os.path.dirname(os.path.dirname(os.path.abspath(__file__))), "c17"))
+    import c17
+    r = c17.helper_checks("drop")
+    out = {"coverage": {"c_drop_helpers": {"cbmc_properties": r["props"], "solver_time_s": round(r["secs"], 2), "harness": r["harness"],
+                                           "what": "objects Box+CArc and Box without context of model obj_box_arc: *_drop helpers"}},
+           "violations": [], "inconclusive": []}
+    if r["error"]:
+        out["inconclusive"].append("C drop helpers not decided: %s" % r["error"])
+    for f in r["failed"]:
+        if f["gcc_replay_fails"]:
+            out["violations"].append(("C drop helper: %s" % f["check"]["desc"], f))
+        else:
+            out["inconclusive"].append("C drop helper counterexample did not replay: %s" % f["check"]["desc"])
+    return out
+
+
 _LAYOUT_SEED_FLAGS = "-Zrandomize-layout -Zlayout-seed=%d" % (1 + int(os.environ.get("VERIF_SEED", "0") or 0) % 1000)
 
 PROPS["C16"] = {
     "crate": "rt",
     "pre": _c16_pre,
+    "extra": _c16_extra,
     "groups": [
         {"id": "views",
          "quick": ["c16::c16_cbox_view", "c16::c16_carc_view", "c16::c16_carc_view_overaligned_opaque_clone", "c16::c16_slices_u8", "c16::c16_slices_u64", "c16::c16_slices_t3",
@@ -381,9 +403,11 @@ PROPS["C02"] = {
          "quick": ["c02::c02_args_slices", "c02::c02_args_mutable", "c02::c02_args_values", "c02::c02_args_callback_iterator", "c02::c02_iterator_argument_not_fused", "c02::c02_strings_multibyte",
                    "c02::c02_returns", "c02::c02_boxed_object", "c02::c02_npo_options", "c02::c02_narrow_options_and_zst_mut_slices", "c02::c02_negative_twin",
                    # integer-coded results with an io::Error payload (every i32 OS code) - shared with C13
-                   "c13e::c13e_io_codes", "c13e::c13e_roundtrip"],
+                   "c13e::c13e_io_codes", "c13e::c13e_roundtrip", "c13e::c13e_payload_shapes"],
          "timeout": 1800},
         {"id": "corpus", "crate": "gencorp", "quick": _gc_subset(1), "thorough": list(_GC), "timeout": 900},
+        # an iterator passed on by reference is still the caller's iterator afterwards: nothing beyond what was offered is taken
+        {"id": "feed", "crate": "rt", "quick": ["c15::c15_feed_borrowed_source_takes_only_what_it_offers"], "timeout": 900},
     ],
     "negative": ["c02::c02_negative_twin"],
     "bounds": "shapes {&[u8], &[u64], &[ZST], &mut [u8], &str (symbolic ASCII + fixed multi-byte + empty), Option<u32>, Option<&u64>, "
